@@ -336,6 +336,76 @@ def r20_10(chk, P):
     return len(per)
 
 
+
+def r20_11(chk, P):
+    chk.rule('R20.11', 'the toggle restores a position the seek accepts: at half rate the position advances two samples per sample '
+             'returned, so after the last sample of a link of odd length it stands one past the total.  Wherever vorbisfile.c '
+             're-seeks to a position it read back from the handle (an argument of ov_pcm_seek / ov_pcm_seek_page that derives from '
+             'vf->pcm_offset and not from a parameter), that value is bounded above by ov_pcm_total(vf,-1) at the call (K4 '
+             'symbolic upper bound against the local that holds the total) -- otherwise the range check of the seek turns '
+             'ov_halfrate at the end of an odd-length stream into OV_EINVAL with the position lost')
+    import absint
+    from rules import common
+    n = 0
+    for F in P.functions():
+        if not F.file.endswith('vorbisfile.c') or F.entry is None:
+            continue
+        sites = []
+        defs = common.single_defs(F)
+        for c in F.calls():
+            if F.ex[c]['callee'].get('d') not in ('ov_pcm_seek', 'ov_pcm_seek_page') or len(F.ex[c]['c']) < 2:
+                continue
+            a = F.strip_casts(F.ex[c]['c'][1])
+            an = F.ex[a]
+            if an['k'] != 'ref' or an['decl'].get('kind') != 'var':
+                continue
+            # every definition of the local: does one read the handle's position?
+            from_handle = False
+            for q in F.pos:
+                qn = F.ex[q]
+                rhs = None
+                if qn['k'] == 'decl':
+                    for v in qn['vars']:
+                        if v.get('id') == an['decl']['id'] and v.get('init'):
+                            rhs = v['init']
+                elif qn['k'] == 'assign' and qn['op'] == '=':
+                    l = F.ex[F.strip_casts(qn['c'][0])]
+                    if l['k'] == 'ref' and l['decl'].get('id') == an['decl']['id']:
+                        rhs = qn['c'][1]
+                if rhs is not None:
+                    r = F.ex[F.strip_casts(rhs)]
+                    if r['k'] == 'member' and r.get('record') == VF and r['field'] == 'pcm_offset':
+                        from_handle = True
+            if from_handle:
+                sites.append((c, a))
+        if not sites:
+            continue
+        totals = set()
+        for v, d in defs.items():
+            dn = F.ex[F.strip_casts(d)]
+            if dn['k'] == 'call' and dn['callee'].get('d') == 'ov_pcm_total' and len(dn['c']) > 1 and common.const_val(F, dn['c'][1]) == -1:
+                totals.add(f'v{v}')
+        A = absint.Analyzer(P, F)
+        seen = {}
+
+        def obs(A_, env, e, v, seen=seen):
+            for c, a in sites:
+                if e == c:
+                    av = A_.peek(env, a)
+                    seen[c] = absint.join(seen.get(c), av)
+        A.observers.append(obs)
+        A.run()
+        for c, a in sites:
+            av = seen.get(c)
+            ok = av is not None and bool((set(av.le) | set(av.lt)) & totals)
+            n += 1
+            chk.ob('R20.11', F.name, f'restored-position-within-total:{F.ex[c]["callee"]["d"]}', ok, F.where(c),
+                   f'`{F.s(c)}`: the position read back from vf->pcm_offset is {av}' +
+                   (f', bounded by the total ({sorted(totals)})' if ok else
+                    ' -- not bounded by ov_pcm_total(vf,-1): one past the total after an odd-length link was played at half rate, and '
+                    'the seek refuses it'))
+    return n
+
 def run(chk, P):
     E = getattr(P, '_effects', None) or k3.Effects(P)
     P._effects = E
@@ -361,6 +431,8 @@ def run(chk, P):
     chk.floor('R20.9', 1)
     r20_10(chk, P)
     chk.floor('R20.10', 1)
+    r20_11(chk, P)
+    chk.floor('R20.11', 1)
     chk.trusted += ['clang 14 front end', 'call graph', 'K4 intervals with symbolic bounds']
     return ('Units-of-measure typing separates stream samples from decoder-output samples and requires the half-rate shift at '
             'every crossing; path and order rules decide that a refused toggle changes nothing, rolls back all links, and that '
